@@ -6,7 +6,7 @@ set -u
 WT=$1; CH=$2; CRATE=$3; PKG=$4; shift 4
 export CARGO_NET_OFFLINE=true
 cd "$WT" || exit 2
-git checkout -q -- . && git clean -fdq -e target -e Cargo.lock
+git checkout -q -- . && git clean -fdq -e target -e Cargo.lock -e c04_common
 mkdir -p "$CRATE/tests"
 demos=$(ls "$CH"/demo/*.rs "$CH"/*.rs 2>/dev/null)
 names=""
@@ -19,5 +19,5 @@ rmdir "$CRATE/tests" 2>/dev/null
 cargo test --workspace --offline >"$CH/confirm_suite.log" 2>&1; suite_rc=$?
 passed=$(grep -E "^test result: ok" "$CH/confirm_suite.log" | sed -E 's/.* ([0-9]+) passed.*/\1/' | paste -sd+ | bc)
 failed=$(grep -E "^test result" "$CH/confirm_suite.log" | sed -E 's/.* ([0-9]+) failed.*/\1/' | paste -sd+ | bc)
-git checkout -q -- . && git clean -fdq -e target -e Cargo.lock
+git checkout -q -- . && git clean -fdq -e target -e Cargo.lock -e c04_common
 echo "{\"change\":\"$CH\",\"demo_clean_rc\":$clean_rc,\"demo_patched_rc\":$patched_rc,\"suite_rc\":$suite_rc,\"suite_passed\":$passed,\"suite_failed\":$failed}"
